@@ -66,7 +66,7 @@ def run(ctx):
 
         where = f"{EF}:{name}"
         fn = repo.func(EF, name)
-        fn = canonicalise(fn, bind_roles(fn, {"content": ("assign", "b''.join(chunks)")}, where))
+        fn = canonicalise(fn, bind_roles(fn, {"content": ("assign", "~.*b''\\.join\\(chunks\\).*")}, where))
         g = build_cfg(fn)
         tests = [n for n in g.nodes if n.kind == "test"]
         ok = len(tests) == 1 and norm(tests[0].ast) == "b'\\x00' in content"
